@@ -77,6 +77,9 @@ T = {
             "expose patterns drawn from a family whose meaning is computed without re", "4/C20"),
 }
 
+# properties whose check is finished and reviewed (a module file that merely exists is not claimed)
+READY = ["C01", "C04", "C06", "C17", "C19"]
+
 NA_REASON = "check not built yet (implementation in progress, see DESIGN.md section 8); nothing is claimed for it at this commit"
 
 
@@ -86,7 +89,7 @@ def main():
     for prop in sorted(T):
         cat, tech, text, note, ref = T[prop]
         mod = rc.CHECKS[prop]
-        if os.path.exists(os.path.join(ROOT, "checks", mod + ".py")):
+        if prop in READY and os.path.exists(os.path.join(ROOT, "checks", mod + ".py")):
             checks.append({
                 "property_id": prop,
                 "quick_cmd": "./run_check.py %s --tier quick" % prop,
